@@ -48,7 +48,7 @@ Theorem raise_blocked : forall s sig, (sig < nsig)%N -> mem_n sig (g_mask (p_sig
 Proof. exact raise_blocked_l. Qed.
 
 (* setting the action to ignore discards a pending instance *)
-Theorem ignore_discards_pending : forall s sig, (sig < nsig)%N -> mem_n sig (g_pend (p_sig (k_cur (fst (k_sigaction s sig DIgnore))))) = false.
+Theorem ignore_discards_pending : forall s sig, (sig < nsig)%N -> sig <> sigchld -> mem_n sig (g_pend (p_sig (k_cur (fst (k_sigaction s sig DIgnore))))) = false.
 Proof. exact ignore_discards_pending_l. Qed.
 
 (* O_APPEND: the bytes go to the end of the file whatever the offset was; the offset ends after them *)
@@ -163,7 +163,7 @@ Theorem dup_emfile : forall s fd m cx e, fd_get (fds s) fd = Some e -> (m <= fd_
 Proof. exact dup_emfile_l. Qed.
 
 (* a fatal signal for the caller's own group kills the child that has the default action: nothing more of it runs, its waiting ancestors (which ignore the signal) are unchanged and the parent learns the signal at the child's exit *)
-Theorem group_kill_child_dies : forall s parent rest sig, k_skip s = None -> k_susp s = parent :: rest -> (sig < nsig)%N -> sig <> sigtstp -> mem_n sig (g_mask (p_sig (k_cur s))) = false -> get_disp (g_disp (p_sig (k_cur s))) sig = DDefault -> signal_ancestors (k_susp s) (snd (p_id (k_cur s))) sig = Some (k_susp s) -> let s1 := fst (k_kill s TGroup0 sig) in snd (k_kill s TGroup0 sig) = RSkip /\ (forall o, o <> OFork -> o <> OExit -> step s1 o = (s1, RSkip)) /\ fst (step s1 OExit) = mkK (k_ino s) (k_ofd s) parent rest None (k_unpriv s) /\ snd (step s1 OExit) = RChild (CSignaled sig).
+Theorem group_kill_child_dies : forall s parent rest sig, k_skip s = None -> k_susp s = parent :: rest -> (sig < nsig)%N -> sig <> sigtstp -> sig <> sigchld -> mem_n sig (g_mask (p_sig (k_cur s))) = false -> get_disp (g_disp (p_sig (k_cur s))) sig = DDefault -> signal_ancestors (k_susp s) (snd (p_id (k_cur s))) sig = Some (k_susp s) -> let s1 := fst (k_kill s TGroup0 sig) in snd (k_kill s TGroup0 sig) = RSkip /\ (forall o, o <> OFork -> o <> OExit -> step s1 o = (s1, RSkip)) /\ fst (step s1 OExit) = mkK (k_ino s) (k_ofd s) (notify parent) rest None (k_unpriv s) /\ snd (step s1 OExit) = RChild (CSignaled sig).
 Proof. exact group_kill_child_dies_l. Qed.
 
 (* a waiting process that ignores the signal is not changed by a signal for its group *)
@@ -195,6 +195,18 @@ Proof. exact open_existing_denied_l. Qed.
 (* with the needed bits the open succeeds, privileged or not *)
 Theorem open_existing_allowed : forall s i a f perm data, f_creat f && f_excl f = false -> f_dir f = false -> nth_error (k_ino s) i = Some (IReg perm data) -> (readable a && negb (may_r perm)) || (writable a && negb (may_w perm)) = false -> exists s' fd, open_existing s i a f = (s', RFd fd).
 Proof. exact open_existing_allowed_l. Qed.
+
+(* the parent of a child that ends gets SIGCHLD (whatever process group the child is in) *)
+Theorem exit_notifies_parent : forall s parent rest, k_susp s = parent :: rest -> get_disp (g_disp (p_sig parent)) sigchld = DCatch -> mem_n sigchld (g_mask (p_sig parent)) = false -> mem_n sigchld (g_caught (p_sig (k_cur (fst (k_exit s))))) = true /\ snd (k_exit s) = RChild CExited.
+Proof. exact exit_notifies_parent_l. Qed.
+
+(* a child that unblocks a pending fatal signal dies inside the call; its parent learns the signal at the exit and is told *)
+Theorem death_at_unblock : forall s parent rest sig, k_skip s = None -> k_susp s = parent :: rest -> g_mask (p_sig (k_cur s)) = [sig] -> g_pend (p_sig (k_cur s)) = [sig] -> get_disp (g_disp (p_sig (k_cur s))) sig = DDefault -> (sig < 5)%N -> let s1 := fst (k_sigmask s 1 [sig]) in snd (k_sigmask s 1 [sig]) = RSkip /\ step s1 OExit = (mkK (k_ino s) (k_ofd s) (notify parent) rest None (k_unpriv s), RChild (CSignaled sig)).
+Proof. exact death_at_unblock_l. Qed.
+
+(* the SIGCHLD for the parent changes its signal state only *)
+Theorem subshell_notify_only : forall p, strip (notify p) = strip p.
+Proof. exact strip_notify. Qed.
 
 Print Assumptions lowest_free_spec.
 Print Assumptions dup_lowest_free.
@@ -246,3 +258,6 @@ Print Assumptions walk_needs_search.
 Print Assumptions walk_privileged.
 Print Assumptions open_existing_denied.
 Print Assumptions open_existing_allowed.
+Print Assumptions exit_notifies_parent.
+Print Assumptions death_at_unblock.
+Print Assumptions subshell_notify_only.
